@@ -3,6 +3,10 @@
 //! This module provides async versions of the core sync operations,
 //! enabling non-blocking file synchronization for I/O-bound workloads.
 
+#[cfg(paiml_copia_verif)]
+#[allow(unused_imports)]
+use copia_simworld::shim::tokio;
+
 #[cfg(feature = "async")]
 use std::path::Path;
 
